@@ -7,13 +7,27 @@ RULE = ('real ZMQReceiver / ZMQSender under the scripted simzmq world: 1-4 sourc
         'future requests, CLOSE, OOB, silences around the connection timeout); every third history adversarial; per-item outputs '
         'and state digests compared with the Gallina machines; non-trivial = at least one set returned / one publish; distinct by hash')
 
-PARTIAL = ['end-to-end clause over reconnects/restarts of both sides (C02_end_to_end over the network model) is explored in pipeline mode (see C03/C06 evidence), not proved', "C02_payload_and_topic_map is proved for non-balanced receivers (balanced ones: oracle 'topic-map' only); exactness of prefix filtering for explicit subscriptions assumes topic names without '/'", 'the codec clause is C09']
+PARTIAL = ['end-to-end clause over reconnects/restarts of both sides (C02_end_to_end over the network model) is explored in pipeline mode (see C03/C06 evidence), not proved', "C02_payload_and_topic_map is proved for non-balanced receivers (balanced ones: oracle 'topic-map' only); exactness of prefix filtering for explicit subscriptions assumes topic names without '/'", 'the codec clause is proved in C09; here it is checked on the implementation only (oracle)']
 
 def main():
     run = vlib.Run('C02')
     run.coq_gate()
     cp.proto_component_check(run, {'C02'}, run.n(300, 8000), run.n(250, 6000))
-    run.rule = RULE
+    # the payload clause ("unaltered"), on the implementation: what MQ.frames2topicmsgs hands to the publisher decodes
+    # (MQ.topicmsgs2frames) to the same data, shape, format and - for raw images - the same pixels, whatever the memory
+    # layout of the array.  Same generator and oracle as C09 (where the model comparison lives); oracle only here.
+    import corr_C09 as c9
+    for _ in range(run.n(200, 4000)):
+        case = c9.gen_case(run.rng, run.thorough)
+        for real in (False, True):
+            try:
+                c9.oracle(run, case, real)
+            except Exception as e:                            # noqa: a valid frame set must not make the codec raise
+                run.violation('roundtrip:raises %s' % type(e).__name__, 'round trip raised %r' % (e,), case)
+        run.count('payload:topics=%d' % len(case['topics']))
+        run.seen(('payload', repr(case['ops']), repr(case['topics']), case['outs_jpg']), nontrivial=bool(case['topics']))
+    run.rule = RULE + ('; payload clause: %d frame sets through MQ.frames2topicmsgs / topicmsgs2frames with the C09 oracle '
+                       '(arrays of every memory layout, jpg and raw)' % run.n(200, 4000))
     run.partial = PARTIAL
     run.assumptions = ['ghost provenance recorded when a wire message is read identifies the upstream publish',
                        'poll answers report only registered, non-empty sockets']
